@@ -514,4 +514,5 @@ func runC11(c *Ctx) {
 	runC11Watchers(c)
 	runC11Shares4(c)
 	runC11Round5(c)
+	runC11HistoryComplete(c)
 }
